@@ -117,6 +117,8 @@ pub struct ParsedEntry {
     pub nlink: u32,
     pub filesize: u64,
     pub data: Vec<u8>,
+    /// c_mtime of a newc entry (0 for stripped entries, which carry none)
+    pub mtime: u32,
 }
 
 fn hex8(b: &[u8]) -> Result<u32, String> {
@@ -153,7 +155,7 @@ pub fn parse_archive(b: &[u8], sizes: &[u64]) -> Result<(Vec<ParsedEntry>, usize
                 return Err(format!("non-zero data padding after stripped entry {idx}"));
             }
             e += pad;
-            out.push(ParsedEntry { stripped_index: Some(idx), name: vec![], mode: 0, ino: 0, nlink: 0, filesize: size as u64, data });
+            out.push(ParsedEntry { stripped_index: Some(idx), name: vec![], mode: 0, ino: 0, nlink: 0, filesize: size as u64, data, mtime: 0 });
             at = e;
             continue;
         }
@@ -196,6 +198,6 @@ pub fn parse_archive(b: &[u8], sizes: &[u64]) -> Result<(Vec<ParsedEntry>, usize
             }
             return Ok((out, b.len() - at));
         }
-        out.push(ParsedEntry { stripped_index: None, name, mode, ino, nlink, filesize: filesize as u64, data });
+        out.push(ParsedEntry { stripped_index: None, name, mode, ino, nlink, filesize: filesize as u64, data, mtime: field(5)? });
     }
 }
